@@ -30,22 +30,22 @@ func registryUsedBy(p *Program, fn *ssa.Function) *types.Var {
 	if fn == nil {
 		return nil
 	}
-	for _, b := range fn.Blocks {
-		for _, in := range b.Instrs {
-			lk, ok := in.(*ssa.Lookup)
-			if !ok {
-				continue
-			}
-			if u, ok := lk.X.(*ssa.UnOp); ok && u.Op == token.MUL {
-				if g, ok := u.X.(*ssa.Global); ok {
-					if v, ok := g.Object().(*types.Var); ok {
-						return v
-					}
-				}
+	var found *types.Var
+	visitInstrs(fn, nil, 0, map[*ssa.Function]bool{}, func(in ssa.Instruction, env *cfEnv) {
+		lk, ok := in.(*ssa.Lookup)
+		if !ok || found != nil {
+			return
+		}
+		if _, isMap := lk.X.Type().Underlying().(*types.Map); !isMap {
+			return
+		}
+		if g := globalLoaded(lk.X, env, 0); g != nil {
+			if v, ok := g.Object().(*types.Var); ok {
+				found = v
 			}
 		}
-	}
-	return nil
+	})
+	return found
 }
 
 func extractRegistry(p *Program, v *types.Var) (*Registry, error) {
